@@ -231,7 +231,13 @@ def check(ctx, rep):
                 continue
             stdc = [e for e in p.calls() if q.is_super_call(e, "cancel")]
             notif = [e for e in p.calls() if q.call_name(e) == "set_running_or_notify_cancel"]
-            rep.require(len(stdc) == 1, "%s.cancel: expected one stdlib cancel per path" % N)
+            if not stdc:
+                # answered without the stdlib transition: only for a future that already is cancelled
+                was = q.truth_of(p, ("call", ("attr", SELF, "cancelled"), (), (), None))
+                kinds.add("again")
+                rep.ob("R-NOTIFY", "%s.cancel: answers without the stdlib cancel only when already cancelled" % N, was is True and p.value == ("const", True) and not notif, "cancel() returns %s without calling the stdlib cancel (self.cancelled() = %s)" % (fmt(p.value), was), where_of(cm), trace_of(p))
+                continue
+            rep.ob("R-NOTIFY", "%s.cancel: one stdlib cancel per path" % N, len(stdc) == 1, "%d stdlib cancel() calls on one path" % len(stdc), where_of(cm), trace_of(p))
             succ = q.truth_of(p, q.result_of(stdc[0]))
             if not succ:
                 kinds.add("failed")
@@ -244,11 +250,11 @@ def check(ctx, rep):
             if already:
                 rep.ob("R-NOTIFY", "%s.cancel: repeated cancel does not notify again" % N, not notif and p.value in (("const", True), q.result_of(stdc[0])), "set_running_or_notify_cancel would raise on a second call", where_of(cm), trace_of(p))
             else:
-                ok = len(notif) == 1 and len(stores) == 1 and flags and stores[0].d["target"] == flags[0][0] and p.value in (("const", True), q.result_of(stdc[0]))
+                ok = len(notif) == 1 and len(stores) == 1 and bool(flags) and stores[0].d["target"] == flags[0][0] and p.value in (("const", True), q.result_of(stdc[0]))
                 lk = [l for l in notif[0].locks] if notif else []
                 same = ok and bool(lk) and all(l in flags[0][2].locks for l in lk) and all(l in stores[0].locks for l in lk)
                 rep.ob("R-NOTIFY", "%s.cancel: first successful cancel notifies once, flag test-and-set under one lock" % N, ok and same, "the notified flag must be tested, set and the notification issued under one lock, exactly once", where_of(cm), trace_of(p))
-        rep.require(kinds == {"failed", "first", "again"}, "%s.cancel: expected failed / first / repeated paths, found %s" % (N, sorted(kinds)))
+        rep.ob("R-NOTIFY", "%s.cancel: failed / first / repeated cancel are all handled" % N, kinds >= {"failed", "first", "again"}, "cases found: %s (a successful stdlib cancel that was already notified must be told apart from the first one)" % sorted(kinds), where_of(cm))
 
     # allocation sites: plain stdlib futures must be terminal before they escape; pending outputs must be OutputFuture/_Future
     nalloc = 0
